@@ -10,6 +10,7 @@ from vx.sim import EMBEDDINGS, EMBEDDINGS_MUTATING
 def engine_cases(
     draw,
     max_jobs=5,
+    dup_tok_pct=0,
     tokens=2,
     file_tokens=True,
     foreign=True,
@@ -59,6 +60,9 @@ def engine_cases(
             if chance(draw, tok_pct):
                 w = draw(st.integers(1, t["total"])) if hetero else 1
                 jt.append([ti, w])
+                if dup_tok_pct and w < t["total"] and chance(draw, dup_tok_pct):
+                    # two dependencies of one job on the same token (legal, unusual)
+                    jt.append([ti, draw(st.integers(1, t["total"] - w))])
         job = {
             "cls": draw(st.integers(1, 2) if mutating else st.integers(0, 2)),
             "ups": ups,
